@@ -173,20 +173,21 @@ type Violation struct {
 
 // Stats is what one exploration covered.
 type Stats struct {
-	Harness            string   `json:"harness"`
-	Bound              int      `json:"deviation_bound"`
-	Evaluations        int64    `json:"evaluations"`
-	Skipped            int64    `json:"skipped_noncanonical"`
-	Transitions        int64    `json:"transitions"`
-	States             int64    `json:"states"`
-	DistinctNontrivial int64    `json:"distinct_nontrivial"`
-	DistinctOutcomes   int64    `json:"distinct_outcomes"`
-	Outcomes           []string `json:"outcomes,omitempty"`
-	MaxDepth           int      `json:"max_depth"`
-	Exhaustive         bool     `json:"exhaustive"`
-	CapHit             string   `json:"cap_hit,omitempty"`
-	WallS              float64  `json:"wall_s"`
-	Samples            []any    `json:"samples,omitempty"`
+	Harness            string         `json:"harness"`
+	Bound              int            `json:"deviation_bound"`
+	Evaluations        int64          `json:"evaluations"`
+	Skipped            int64          `json:"skipped_noncanonical"`
+	Transitions        int64          `json:"transitions"`
+	States             int64          `json:"states"`
+	DistinctNontrivial int64          `json:"distinct_nontrivial"`
+	DistinctOutcomes   int64          `json:"distinct_outcomes"`
+	Outcomes           []string       `json:"outcomes,omitempty"`
+	OutcomeCounts      map[string]int `json:"outcome_counts,omitempty"`
+	MaxDepth           int            `json:"max_depth"`
+	Exhaustive         bool           `json:"exhaustive"`
+	CapHit             string         `json:"cap_hit,omitempty"`
+	WallS              float64        `json:"wall_s"`
+	Samples            []any          `json:"samples,omitempty"`
 }
 
 // Harness describes one enumerable space.
@@ -488,8 +489,12 @@ func Explore(h Harness) (Stats, []Violation, error) {
 		st.Exhaustive = false
 		st.CapHit = v.(string)
 	}
-	for o := range e.outcomes {
+	st.OutcomeCounts = map[string]int{}
+	for o, n := range e.outcomes {
 		st.Outcomes = append(st.Outcomes, o)
+		if len(st.OutcomeCounts) < 40 {
+			st.OutcomeCounts[o] = n
+		}
 	}
 	sort.Strings(st.Outcomes)
 	st.DistinctOutcomes = int64(len(st.Outcomes))
